@@ -105,7 +105,7 @@ fn emit_choice_block(
             let g_n_path = format!("{}.{}", scope.path, name);
             let fallback_is_self = fallback_continuation == Some(g_n_path.as_str());
             let inner_fallback = if fallback_is_self {
-                None
+                Some(IMPLICIT_DONE_FALLBACK)
             } else {
                 fallback_continuation
             };
@@ -171,6 +171,10 @@ struct ThreadedChoiceOutput {
     continuation_placement: ThreadedContinuationPlacement,
 }
 
+/// Fallback "path" of the loose ends inside the final gather of the top-level
+/// content: they end in the implicit `-> DONE` of the story.
+const IMPLICIT_DONE_FALLBACK: &str = "DONE";
+
 enum LooseEndNoFallback<'a> {
     None,
     Done,
@@ -196,6 +200,11 @@ fn loose_end_append_for_nodes<'a>(
     if let Some(path) = fallback_path
         && self_path != Some(path)
     {
+        if path == IMPLICIT_DONE_FALLBACK {
+            // A loose end inside the final gather of the top-level content: the
+            // story ends in its implicit `-> DONE`.
+            return Some(json!("done"));
+        }
         return Some(json!({"->": path}));
     }
 
@@ -317,7 +326,7 @@ fn build_threaded_choice_block_no_label(
         .any(|node| matches!(node, Node::Choice(_)));
     let fallback_is_self = fallback_continuation == Some(continuation_path_abs.as_str());
     let inner_fallback = if fallback_is_self {
-        None
+        Some(IMPLICIT_DONE_FALLBACK)
     } else {
         fallback_continuation
     };
